@@ -38,7 +38,8 @@ SIMPLIFY = {"neg": "", "how": "explicit", "form": "list"}
 WATCHDOG_S = {"quick": 900, "thorough": 4 * 3600}
 
 # (two tag names contain an operator word delimited by punctuation: still one tag name in either dialect)
-UNIVERSE = ["a", "b", "order", "android", "notebook", "not.ready", "k-or-v=1"]
+# (one is written with non-ASCII letters, one ends in an operator word)
+UNIVERSE = ["a", u"gr\u00f6\u00dfe", "order", "android", "notebook", "not.ready", "k-or-v=1", "cannot"]
 U = c07.Universe(UNIVERSE)
 KEYWORDS = ("and", "or", "not")
 
@@ -228,7 +229,9 @@ def check_v1(case):
                        ("v1:limit", any(lit["lim"] is not None for lit in lits)),
                        ("v1:keyword-substring-tag", any(lit["t"] in ("order", "android", "notebook", "sandbox")
                                                         for lit in lits)),
-                       ("v1:operator-word-inside-tag", any(lit["t"] in ("not.ready", "k-or-v=1") for lit in lits))):
+                       ("v1:operator-word-inside-tag", any(lit["t"] in ("not.ready", "k-or-v=1") for lit in lits)),
+                       ("v1:operator-word-at-end-of-tag", any(lit["t"] == "cannot" for lit in lits)),
+                       ("v1:non-ascii-tag", any(lit["t"] == UNIVERSE[1] for lit in lits))):
         if flag:
             res.label(name)
     keyword_named = any(lit["t"] in KEYWORDS for lit in lits)
@@ -513,7 +516,7 @@ def explore(rec):
 def required_labels(tier):
     return ["v1:list", "v1:list-blanks", "v1:string", "v1:string-blanks", "protocol:v1", "protocol:auto", "how:explicit", "how:current",
             "how:config", "v1:groups=3", "v1:alternatives=3", "v1:minus", "v1:tilde", "v1:at", "v1:negated-at",
-            "v1:limit", "v1:bare-tag-with-limit", "v1:keyword-substring-tag", "v1:operator-word-inside-tag", "excluded:both-dialects",
+            "v1:limit", "v1:bare-tag-with-limit", "v1:keyword-substring-tag", "v1:operator-word-inside-tag", "v1:operator-word-at-end-of-tag", "v1:non-ascii-tag", "excluded:both-dialects",
             "v2-auto", "v2-auto:single-operand", "v2-auto:keyword-substring-tag", "wildcard", "form:list",
             "mixed", "mixed:and", "mixed:or", "mixed:not", "mixed:list", "mixed:tuple", "cli:mixed", "cli:via=ini",
             "cli:via=cmdline"]
